@@ -39,6 +39,48 @@ def _init_worker():
     os.environ.setdefault('DISKCACHE_VERIF', '1')
 
 
+def library_exception(pid, exc):
+    """An exception that escapes a check's own handling and was RAISED INSIDE the library under test (innermost frame in
+    the diskcache package) is behaviour of the code, not of the harness: report it as a violation with a replay.  On the
+    unchanged tree no case does this (it would have been a harness error before this rule existed)."""
+    from . import seams
+    tb = exc.__traceback__
+    last = None
+    while tb is not None:
+        last = tb
+        tb = tb.tb_next
+    if last is None or seams.dc is None:
+        return None
+    fn = last.tb_frame.f_code.co_filename
+    root = os.path.dirname(os.path.abspath(seams.dc.__file__))
+    if not os.path.abspath(fn).startswith(root + os.sep):
+        return None
+    if isinstance(exc, (KeyboardInterrupt, SystemExit, MemoryError)):
+        return None
+    where = '%s:%s' % (os.path.basename(fn), last.tb_frame.f_code.co_name)
+    return {'rule': '%s/library-exception-escaped' % pid, 'sig': '%s@%s' % (type(exc).__name__, where),
+            'detail': '%s: %s raised in %s line %d outside any call the check compares' % (
+                type(exc).__name__, str(exc)[:120], where, last.tb_lineno)}
+
+
+def guarded(pid, run_case, case):
+    """run_case(case), with an exception raised inside the library turned into a violation of the case."""
+    try:
+        return run_case(case)
+    except BaseException as exc:  # noqa
+        vio = library_exception(pid, exc)
+        if vio is None:
+            raise
+        try:
+            from . import seams
+            if seams.ACTIVE is not None:
+                seams.deactivate()
+        except Exception:
+            pass
+        return {'violations': [vio], 'digest': None, 'steps': 0, 'switches': 0, 'fired': {}, 'probes': {}, 'virtual_s': 0.0,
+                'nontrivial': True, 'outcome': {'escaped': vio['sig']}}
+
+
 def work(pid, seeds, tier, want_samples):
     """Run a batch of seeds; returns a list of compact result dicts."""
     faulthandler.dump_traceback_later(300, exit=True)
@@ -52,7 +94,7 @@ def work(pid, seeds, tier, want_samples):
                     results = mod.run_seed(seed, tier)
                 else:
                     case = mod.gen_case(seed, tier)
-                    res = mod.run_case(case)
+                    res = guarded(pid, mod.run_case, case)
                     res['case'] = case
                     results = [res]
             except BaseException:  # harness problem, never a violation
@@ -191,7 +233,7 @@ def shrink(mod, case, target, budget_s=60.0, log=None):
                 break
             runs += 1
             try:
-                res = mod.run_case(copy.deepcopy(cand))
+                res = guarded(mod.PROPERTY, mod.run_case, copy.deepcopy(cand))
             except Exception:
                 continue
             if any(v['rule'] == target['rule'] and v['sig'] == target['sig'] for v in res.get('violations', ())):
@@ -222,7 +264,7 @@ def replay_file(path, quiet=False):
     """Run a replay file in this interpreter.  Returns (reproduced, result)."""
     doc = json.load(open(path))
     mod = check_module(doc['property'])
-    res = mod.run_case(copy.deepcopy(doc['case']))
+    res = guarded(mod.PROPERTY, mod.run_case, copy.deepcopy(doc['case']))
     exp = doc['expect']
     hit = [v for v in res.get('violations', ()) if v['rule'] == exp['rule'] and v['sig'] == exp['sig']]
     if not quiet:
@@ -257,7 +299,7 @@ def replay_search(path, n):
         case = copy.deepcopy(doc['case'])
         case['seed'] = 7000000 + s
         try:
-            res = mod.run_case(case)
+            res = guarded(mod.PROPERTY, mod.run_case, case)
         except Exception:
             continue
         if any(v['rule'] == exp['rule'] and v['sig'] == exp['sig'] for v in res.get('violations', ())):
@@ -365,11 +407,11 @@ def run_check(pid, tier):
         out('violation found at seed %s: %s | %s' % (first['seed'], vio_key(vio), vio.get('detail')))
         os.environ.setdefault('DISKCACHE_VERIF', '1')
         small = shrink(mod, case, vio, budget_s=float(os.environ.get('VERIF_SHRINK_S', '60')), log=out)
-        res = mod.run_case(copy.deepcopy(small))
+        res = guarded(mod.PROPERTY, mod.run_case, copy.deepcopy(small))
         hit = [v for v in res.get('violations', ()) if v['rule'] == vio['rule'] and v['sig'] == vio['sig']]
         if not hit:
             small = case
-            res = mod.run_case(copy.deepcopy(small))
+            res = guarded(mod.PROPERTY, mod.run_case, copy.deepcopy(small))
             hit = [v for v in res.get('violations', ()) if v['rule'] == vio['rule'] and v['sig'] == vio['sig']]
         if not hit:
             agg['harness_errors'].append('violation at seed %s did not reproduce in the parent process: %s'
